@@ -157,6 +157,12 @@ func (p *Proxy) serve() {
 			}
 		}
 		if !faulted {
+			if len(reply) > maxFrame {
+				// the client refuses the length prefix and leaves the body unread: the stream is unusable from here on
+				p.mu.Lock()
+				p.alive = false
+				p.mu.Unlock()
+			}
 			if !writeFrame(c, reply) {
 				return
 			}
